@@ -51,6 +51,8 @@ class Sim:
         ]
         L.sim_get_oob.restype = ctypes.c_int
         L.sim_image_base.restype = ctypes.c_size_t
+        L.sim_kernel_count.argtypes = [ctypes.c_int, ctypes.c_char_p, ctypes.POINTER(ctypes.c_uint64)]
+        L.sim_kernel_count.restype = ctypes.c_int
         self._replay_keep = None
         self._sym_cache = {}
 
@@ -113,6 +115,19 @@ class Sim:
                             nearest_arg=int(near.value), offset=int(off.value), count=int(cnt.value)))
             i += 1
         return res
+
+    def kernel_counts(self) -> dict:
+        """calls per bound kernel since the library was loaded (in this process)"""
+        out = {}
+        i = 0
+        while True:
+            name = ctypes.create_string_buffer(64)
+            n = ctypes.c_uint64()
+            if not self.lib.sim_kernel_count(i, name, ctypes.byref(n)):
+                break
+            out[name.value.decode()] = int(n.value)
+            i += 1
+        return out
 
     def set_report_fd(self, fd: int):
         self.lib.sim_set_report_fd(fd)
